@@ -66,6 +66,8 @@ class SD:
         self.types = enum_members(prog, ETYPE)
         if not self.types:
             raise AnalysisError(f"{ETYPE} has vanished")
+        # False: only what happens to *accepted* input is checked (C20); True: rejections too (C02)
+        self.strict_guards = True
 
     # ------------------------------------------------------------------ helpers
     def m(self, cls, name):
@@ -253,6 +255,8 @@ class SD:
             else:
                 want, why = "accept", "valid"
             got = "accept" if p.returns() else ("reject" if p.outcome[0] == "raise" and eng.exc.is_sub(p.outcome[1], PARSE_ERR) else f"raises {p.outcome[1]}")
+            if got != want and not self.strict_guards:
+                continue
             if got != want:
                 failures.setdefault(f"{parse.qual}:guard[{why}]",
                                     f"type {ty}, run1 {oi1}+{no1}, run2 {oi2}+{no2}, {num} options, value {val:#x}, {blen} bytes: "
@@ -341,6 +345,8 @@ class SD:
             p = hits[0]
             want = "reject" if blen < fm.size or blen - fm.size < ln else "accept"
             got = "accept" if p.returns() else ("reject" if p.outcome[0] == "raise" and eng.exc.is_sub(p.outcome[1], PARSE_ERR) else f"raises {p.outcome[1]}")
+            if got != want and not self.strict_guards:
+                continue
             if got != want:
                 failures.setdefault(f"{parse.qual}:guard[{'short' if want == 'reject' else 'valid'}]",
                                     f"{blen} bytes, length field {ln}: option decoder {got}s, expected {want}")
@@ -482,6 +488,8 @@ class SD:
                 acc = any(p.returns() for p in hits)
                 rej = hits and all(p.outcome[0] == "raise" and eng.exc.is_sub(p.outcome[1], PARSE_ERR) for p in hits)
                 want_acc = L == wf.size
+                if not self.strict_guards:
+                    continue
                 run.ob(rule, f"{q}:body-length[{'exact' if want_acc else 'wrong'}]", (acc and not rej) if want_acc else bool(rej), loc(po),
                        f"body of {L} bytes (encoder writes {wf.size}): " + ("accepted" if acc else "rejected with ParseError" if rej else "neither cleanly accepted nor rejected"))
                 run.abstract_cases += 1
@@ -606,7 +614,7 @@ class SD:
                 if res != ("ok", want):
                     rfail.setdefault(f"{po.qual}:decode", f"body {data.hex()} decodes to {res!r}; expected configs {want!r}")
         bad = [b"", b"\x00", b"\x00\x05ab", b"\x00\x01a", b"\x00\x02a\x00", b"\x00\x01"]
-        for data in bad:
+        for data in (bad if self.strict_guards else []):
             res = self._eval_config_parse(po, rps, buf, data, q)
             if res == "deeper":
                 continue
@@ -870,6 +878,8 @@ class SD:
             else:
                 got = "accept"
             want = "accept" if complete else "reject"
+            if got != want and not self.strict_guards:
+                continue
             if got != want:
                 failures.setdefault(f"{parse.qual}:framing-guard", f"SD payload with entries {el}B, options {ol}B, {tail}B trailing, cut by {cut}B: decoder {got}s, expected {want}")
                 continue
